@@ -40,12 +40,13 @@ Inductive beh := Full | Short (k : nat) | Zero | Interrupted | Fail (e : N).
 Record script := { s_list : list beh; s_tail : beh }.
 
 (* what one call on the wrapped std::io stream returned *)
-Inductive ret := RN (n : nat) | RInt | RErr (e : N).
-Inductive event := EvIO (offered : nat) (r : ret) | EvFlush (r : ret).
+(* sizes in the log are kept in binary: the log is retained for the whole run *)
+Inductive ret := RN (n : N) | RInt | RErr (e : N).
+Inductive event := EvIO (offered : N) (r : ret) | EvFlush (r : ret).
 
 (* byte strings that only ever grow are kept reversed (cheap to extend when the model runs) *)
 Definition grow (acc_rev d : list byte) : list byte := rev_append d acc_rev.
-Definition bytes_of (acc_rev : list byte) : list byte := rev acc_rev.
+Definition bytes_of (acc_rev : list byte) : list byte := rev_append acc_rev [].   (* = rev acc_rev, linear *)
 
 (* errors the wrapped stream has returned so far, most recent first *)
 Fixpoint log_errs (l : list event) : list N :=
@@ -59,7 +60,8 @@ Fixpoint log_errs (l : list event) : list N :=
 Fixpoint log_zero_writes (l : list event) : nat :=
   match l with
   | [] => 0
-  | EvIO (S _) (RN 0) :: l' => S (log_zero_writes l')
+  | EvIO o (RN n) :: l' =>
+    if N.eqb n 0 && negb (N.eqb o 0) then S (log_zero_writes l') else log_zero_writes l'
   | _ :: l' => log_zero_writes l'
   end.
 
@@ -86,12 +88,12 @@ Fixpoint io_read_go (l : list beh) (tl : beh) (room : nat) (rest taken : list by
                                     src_script := {| s_list := l'; s_tail := tl |}; src_log := log' |} in
   let finish b l' :=
     match b with
-    | Fail e => (RFail e, mk l' rest taken (EvIO room (RErr e) :: log))
+    | Fail e => (RFail e, mk l' rest taken (EvIO (N.of_nat room) (RErr e) :: log))
     | _ => let d := read_apply b room rest in
-           (RGot d, mk l' (skipn (length d) rest) (grow taken d) (EvIO room (RN (length d)) :: log))
+           (RGot d, mk l' (skipn (length d) rest) (grow taken d) (EvIO (N.of_nat room) (RN (N.of_nat (length d))) :: log))
     end in
   match l with
-  | Interrupted :: l' => io_read_go l' tl room rest taken (EvIO room RInt :: log)
+  | Interrupted :: l' => io_read_go l' tl room rest taken (EvIO (N.of_nat room) RInt :: log)
   | b :: l' => finish b l'
   | [] => match tl with
           | Interrupted => (RSpin, mk [] rest taken log)
@@ -122,12 +124,12 @@ Fixpoint sink_write_go (l : list beh) (tl : beh) (d : list byte) (got : list byt
   let mk l' got' log' := {| k_got := got'; k_script := {| s_list := l'; s_tail := tl |}; k_log := log' |} in
   let finish b l' :=
     match b with
-    | Fail e => (WFail e, mk l' got (EvIO (length d) (RErr e) :: log))
+    | Fail e => (WFail e, mk l' got (EvIO (N.of_nat (length d)) (RErr e) :: log))
     | _ => let n := write_apply b (length d) in
-           (WAccept n, mk l' (grow got (firstn n d)) (EvIO (length d) (RN n) :: log))
+           (WAccept n, mk l' (grow got (firstn n d)) (EvIO (N.of_nat (length d)) (RN (N.of_nat n)) :: log))
     end in
   match l with
-  | Interrupted :: l' => sink_write_go l' tl d got (EvIO (length d) RInt :: log)
+  | Interrupted :: l' => sink_write_go l' tl d got (EvIO (N.of_nat (length d)) RInt :: log)
   | b :: l' => finish b l'
   | [] => match tl with
           | Interrupted => (WSpin, mk [] got log)
@@ -241,6 +243,30 @@ Definition copy_to_front (r : reader) : option reader :=
     Some (set_buf r (firstn avail_in (skipn (r_off r) (r_buf r)) ++ skipn avail_in (r_buf r)) 0 (r_len r - r_off r))
   else Some r.
 
+(* `if self.input_len < self.input_buffer.len() && !self.input_eof { match self.input.read(..) {..} }`;
+   Ok = the new value of the local `avail_in` *)
+Definition fill_staging (r : reader) (avail_in : nat) : res nat * reader :=
+  let n := length (r_buf r) in
+  if (r_len r <? n) && negb (r_eof r) then
+    match io_read (r_src r) (n - r_len r) with
+    | (RSpin, s') => (OutOfFuel, r)
+    | (RFail e, s') =>
+      (Err (EScript e),
+       {| r_buf := r_buf r; r_off := r_off r; r_len := r_len r; r_eof := r_eof r; r_ei := r_ei r;
+          r_enc := r_enc r; r_src := s' |})
+    | (RGot d, s') =>
+      if length d =? 0 then
+        (Ok avail_in,
+         {| r_buf := r_buf r; r_off := r_off r; r_len := r_len r; r_eof := true; r_ei := r_ei r;
+            r_enc := r_enc r; r_src := s' |})
+      else
+        let r1 := {| r_buf := write_at (r_buf r) (r_len r) d; r_off := r_off r;
+                     r_len := r_len r + length d; r_eof := r_eof r; r_ei := r_ei r;
+                     r_enc := r_enc r; r_src := s' |} in
+        if r_len r1 <? r_off r1 then (Panic 2, r1) else (Ok (r_len r1 - r_off r1), r1)
+    end
+  else (Ok avail_in, r).
+
 (* the body of `while output_offset == 0 { .. }`; one unit of fuel per evaluation of the loop
    condition.  [outp] = buf[..output_offset]. *)
 Fixpoint read_loop (fuel : nat) (r : reader) (avail_in avail_out : nat) (outp : list byte)
@@ -249,30 +275,8 @@ Fixpoint read_loop (fuel : nat) (r : reader) (avail_in avail_out : nat) (outp : 
   | O => (OutOfFuel, r)
   | S f =>
     if negb (length outp =? 0) then (Ok outp, r) else
-    let n := length (r_buf r) in
-    (* if self.input_len < self.input_buffer.len() && !self.input_eof { self.input.read(..) } *)
-    let after_read : res (reader * nat) * reader :=
-      if (r_len r <? n) && negb (r_eof r) then
-        match io_read (r_src r) (n - r_len r) with
-        | (RSpin, s') => (OutOfFuel, r)
-        | (RFail e, s') =>
-          (Err (EScript e),
-           {| r_buf := r_buf r; r_off := r_off r; r_len := r_len r; r_eof := r_eof r; r_ei := r_ei r;
-              r_enc := r_enc r; r_src := s' |})
-        | (RGot d, s') =>
-          if length d =? 0 then
-            let r1 := {| r_buf := r_buf r; r_off := r_off r; r_len := r_len r; r_eof := true; r_ei := r_ei r;
-                         r_enc := r_enc r; r_src := s' |} in
-            (Ok (r1, avail_in), r1)
-          else
-            let r1 := {| r_buf := write_at (r_buf r) (r_len r) d; r_off := r_off r;
-                         r_len := r_len r + length d; r_eof := r_eof r; r_ei := r_ei r;
-                         r_enc := r_enc r; r_src := s' |} in
-            if r_len r1 <? r_off r1 then (Panic 2, r1) else (Ok (r1, r_len r1 - r_off r1), r1)
-        end
-      else (Ok (r, avail_in), r) in
-    match after_read with
-    | (Ok (r1, avail_in1), _) =>
+    match fill_staging r avail_in with
+    | (Ok avail_in1, r1) =>
       let o := if avail_in1 =? 0 then Finish else Process in
       let a := tstep (r_enc r1) o (firstn avail_in1 (skipn (r_off r1) (r_buf r1))) avail_out in
       let avail_in2 := avail_in1 - ta_consumed a in
@@ -451,14 +455,14 @@ Record copier := {
   c_avail_out : nat;        (* available_out *)
   c_eof : bool;
   c_read_err : option ioerr;  (* read_err *)
-  c_total : nat;            (* total_out *)
+  c_total : N;              (* total_out *)
   c_enc : tenc;
   c_src : source;
   c_sink : sink
 }.
 Definition copier_new (ibuf obuf : nat) (st0 : estate) (src : source) (k : sink) : copier :=
   {| c_ibuf := repeat 0%N ibuf; c_obuf := repeat 0%N obuf; c_in_off := 0; c_out_off := 0;
-     c_avail_in := 0; c_avail_out := obuf; c_eof := false; c_read_err := None; c_total := 0;
+     c_avail_in := 0; c_avail_out := obuf; c_eof := false; c_read_err := None; c_total := 0%N;
      c_enc := {| t_st := st0; t_fed := []; t_out := [] |}; c_src := src; c_sink := k |}.
 
 Definition set_sink (c : copier) (k : sink) (out_off : nat) : copier :=
@@ -486,55 +490,63 @@ Fixpoint copy_drain (zero_is_error : bool) (fuel : nat) (c : copier) (lim : nat)
     end
   end.
 
-Fixpoint copy_loop (zero_is_error : bool) (fuel : nat) (c : copier) : res nat * copier :=
+(* if available_in == 0 && !eof { next_in_offset = 0; match r.read(input_buffer) {..} }
+   (None: the wrapped reader is interrupted for ever) *)
+Definition copy_fill (c : copier) : option copier :=
+  if (c_avail_in c =? 0) && negb (c_eof c) then
+    match io_read (c_src c) (length (c_ibuf c)) with
+    | (RSpin, s') => None
+    | (RFail e, s') =>
+      Some {| c_ibuf := c_ibuf c; c_obuf := c_obuf c; c_in_off := 0; c_out_off := c_out_off c;
+              c_avail_in := 0; c_avail_out := c_avail_out c; c_eof := true;
+              c_read_err := Some (EScript e); c_total := c_total c; c_enc := c_enc c; c_src := s'; c_sink := c_sink c |}
+    | (RGot d, s') =>
+      Some {| c_ibuf := write_at (c_ibuf c) 0 d; c_obuf := c_obuf c; c_in_off := 0; c_out_off := c_out_off c;
+              c_avail_in := length d; c_avail_out := c_avail_out c;
+              c_eof := if length d =? 0 then true else c_eof c;
+              c_read_err := c_read_err c; c_total := c_total c; c_enc := c_enc c; c_src := s'; c_sink := c_sink c |}
+    end
+  else Some c.
+
+(* op = if available_in == 0 { FINISH } else { PROCESS }; s.compress_stream(..) *)
+Definition copy_compress (c1 : copier) : copier * bool :=
+  let o := if c_avail_in c1 =? 0 then Finish else Process in
+  let a := tstep (c_enc c1) o (firstn (c_avail_in c1) (skipn (c_in_off c1) (c_ibuf c1))) (c_avail_out c1) in
+  ({| c_ibuf := c_ibuf c1; c_obuf := write_at (c_obuf c1) (c_out_off c1) (ta_produced a);
+      c_in_off := c_in_off c1 + ta_consumed a; c_out_off := c_out_off c1 + length (ta_produced a);
+      c_avail_in := c_avail_in c1 - ta_consumed a;
+      c_avail_out := c_avail_out c1 - length (ta_produced a);
+      c_eof := c_eof c1; c_read_err := c_read_err c1;
+      c_total := (c_total c1 + N.of_nat (length (ta_produced a)))%N; c_enc := ta_enc a;
+      c_src := c_src c1; c_sink := c_sink c1 |}, ta_ok a).
+
+(* if available_out == 0 || fin { .. write the whole output buffer to the sink .. } *)
+Definition copy_write_out (zero_is_error : bool) (f : nat) (c2 : copier) (fin : bool) : res unit * copier :=
+  if (c_avail_out c2 =? 0) || fin then
+    let lim := length (c_obuf c2) - c_avail_out c2 in
+    if negb (c_out_off c2 =? lim) then (Panic 3, c2) else
+    match copy_drain zero_is_error f (set_sink c2 (c_sink c2) 0) lim with
+    | (Ok _, c3) =>
+      (Ok tt, {| c_ibuf := c_ibuf c3; c_obuf := c_obuf c3; c_in_off := c_in_off c3; c_out_off := 0;
+                 c_avail_in := c_avail_in c3; c_avail_out := length (c_obuf c3); c_eof := c_eof c3;
+                 c_read_err := c_read_err c3; c_total := c_total c3; c_enc := c_enc c3;
+                 c_src := c_src c3; c_sink := c_sink c3 |})
+    | r => r
+    end
+  else (Ok tt, c2).
+
+Fixpoint copy_loop (zero_is_error : bool) (fuel : nat) (c : copier) : res N * copier :=
   match fuel with
   | O => (OutOfFuel, c)
   | S f =>
-    (* if available_in == 0 && !eof { next_in_offset = 0; match r.read(input_buffer) {..} } *)
-    let after_read : option copier :=
-      if (c_avail_in c =? 0) && negb (c_eof c) then
-        match io_read (c_src c) (length (c_ibuf c)) with
-        | (RSpin, s') => None
-        | (RFail e, s') =>
-          Some {| c_ibuf := c_ibuf c; c_obuf := c_obuf c; c_in_off := 0; c_out_off := c_out_off c;
-                  c_avail_in := 0; c_avail_out := c_avail_out c; c_eof := true;
-                  c_read_err := Some (EScript e); c_total := c_total c; c_enc := c_enc c; c_src := s'; c_sink := c_sink c |}
-        | (RGot d, s') =>
-          Some {| c_ibuf := write_at (c_ibuf c) 0 d; c_obuf := c_obuf c; c_in_off := 0; c_out_off := c_out_off c;
-                  c_avail_in := length d; c_avail_out := c_avail_out c;
-                  c_eof := if length d =? 0 then true else c_eof c;
-                  c_read_err := c_read_err c; c_total := c_total c; c_enc := c_enc c; c_src := s'; c_sink := c_sink c |}
-        end
-      else Some c in
-    match after_read with
+    match copy_fill c with
     | None => (OutOfFuel, c)
     | Some c1 =>
-      let o := if c_avail_in c1 =? 0 then Finish else Process in
-      let a := tstep (c_enc c1) o (firstn (c_avail_in c1) (skipn (c_in_off c1) (c_ibuf c1))) (c_avail_out c1) in
-      let c2 := {| c_ibuf := c_ibuf c1; c_obuf := write_at (c_obuf c1) (c_out_off c1) (ta_produced a);
-                   c_in_off := c_in_off c1 + ta_consumed a; c_out_off := c_out_off c1 + length (ta_produced a);
-                   c_avail_in := c_avail_in c1 - ta_consumed a;
-                   c_avail_out := c_avail_out c1 - length (ta_produced a);
-                   c_eof := c_eof c1; c_read_err := c_read_err c1;
-                   c_total := c_total c1 + length (ta_produced a); c_enc := ta_enc a;
-                   c_src := c_src c1; c_sink := c_sink c1 |} in
+      let (c2, ok) := copy_compress c1 in
       let fin := enc_finished (t_st (c_enc c2)) in
-      let after_write : res unit * copier :=
-        if (c_avail_out c2 =? 0) || fin then
-          let lim := length (c_obuf c2) - c_avail_out c2 in
-          if negb (c_out_off c2 =? lim) then (Panic 3, c2) else
-          match copy_drain zero_is_error f (set_sink c2 (c_sink c2) 0) lim with
-          | (Ok _, c3) =>
-            (Ok tt, {| c_ibuf := c_ibuf c3; c_obuf := c_obuf c3; c_in_off := c_in_off c3; c_out_off := 0;
-                       c_avail_in := c_avail_in c3; c_avail_out := length (c_obuf c3); c_eof := c_eof c3;
-                       c_read_err := c_read_err c3; c_total := c_total c3; c_enc := c_enc c3;
-                       c_src := c_src c3; c_sink := c_sink c3 |})
-          | r => r
-          end
-        else (Ok tt, c2) in
-      match after_write with
+      match copy_write_out zero_is_error f c2 fin with
       | (Ok _, c4) =>
-        if negb (ta_ok a) then
+        if negb ok then
           (* if read_err.is_ok() { read_err = Err(unexpected_eof_error_constant) } break; read_err? *)
           (Err (first_err c4 EUnexpectedEof), c4)
         else if fin then
@@ -552,10 +564,32 @@ Fixpoint copy_loop (zero_is_error : bool) (fuel : nat) (c : copier) : res nat * 
 
 (* BrotliCompressCustomIo (and BrotliCompress / BrotliCompressCustomAlloc, which forward);
    `assert!(!input_buffer.is_empty()); assert!(!output_buffer.is_empty());` *)
-Definition copy (fuel : nat) (c : copier) : res nat * copier :=
+Definition copy (fuel : nat) (c : copier) : res N * copier :=
   if (length (c_ibuf c) =? 0) || (length (c_obuf c) =? 0) then (Panic 3, c) else copy_loop io_copy_zero_write_is_error fuel c.
 (* the loop before repair b5ff0f7 *)
-Definition copy_zero_retries (fuel : nat) (c : copier) : res nat * copier :=
+Definition copy_zero_retries (fuel : nat) (c : copier) : res N * copier :=
   if (length (c_ibuf c) =? 0) || (length (c_obuf c) =? 0) then (Panic 3, c) else copy_loop false fuel c.
 
 End Adapters.
+
+(* the encoder's state type is always inferable *)
+Arguments ea_state {estate}. Arguments ea_consumed {estate}. Arguments ea_produced {estate}. Arguments ea_ok {estate}.
+Arguments Build_eans {estate}.
+Arguments t_st {estate}. Arguments t_fed {estate}. Arguments t_out {estate}. Arguments Build_tenc {estate}.
+Arguments ta_enc {estate}. Arguments ta_consumed {estate}. Arguments ta_produced {estate}. Arguments ta_ok {estate}.
+Arguments Build_tans {estate}.
+Arguments r_buf {estate}. Arguments r_off {estate}. Arguments r_len {estate}. Arguments r_eof {estate}.
+Arguments r_ei {estate}. Arguments r_enc {estate}. Arguments r_src {estate}. Arguments Build_reader {estate}.
+Arguments w_obuf {estate}. Arguments w_enc {estate}. Arguments w_ei {estate}. Arguments w_ez {estate}.
+Arguments w_sink {estate}. Arguments Build_writer {estate}.
+Arguments c_ibuf {estate}. Arguments c_obuf {estate}. Arguments c_in_off {estate}. Arguments c_out_off {estate}.
+Arguments c_avail_in {estate}. Arguments c_avail_out {estate}. Arguments c_eof {estate}. Arguments c_read_err {estate}.
+Arguments c_total {estate}. Arguments c_enc {estate}. Arguments c_src {estate}. Arguments c_sink {estate}.
+Arguments Build_copier {estate}.
+Arguments tstep {estate}. Arguments fed {estate}. Arguments emitted {estate}.
+Arguments reader_new {estate}. Arguments set_buf {estate}. Arguments copy_to_front {estate}. Arguments fill_staging {estate}.
+Arguments read_loop {estate}. Arguments read_unguarded {estate}. Arguments read {estate}. Arguments read_session {estate}.
+Arguments writer_new {estate}. Arguments hand_over {estate}. Arguments write_loop {estate}. Arguments write {estate}.
+Arguments flush_or_close {estate}. Arguments flush {estate}. Arguments close {estate}. Arguments write_session {estate}.
+Arguments copier_new {estate}. Arguments set_sink {estate}. Arguments first_err {estate}.
+Arguments copy_drain {estate}. Arguments copy_fill {estate}. Arguments copy_compress {estate}. Arguments copy_write_out {estate}. Arguments copy_loop {estate}. Arguments copy {estate}. Arguments copy_zero_retries {estate}.
